@@ -8,8 +8,11 @@ ROOT = os.path.dirname(os.path.dirname(os.path.abspath(__file__)))
 REPO = os.environ.get("VERIF_REPO", "/repo")
 CACHE = os.path.join(ROOT, ".cache")
 COQ = os.path.join(ROOT, "coq")
-OUT = os.path.join(ROOT, "out")
-EVID = os.path.join(ROOT, "evidence")
+# a run against another copy of the repository (VERIF_REPO) keeps its evidence and replays apart, so
+# that evidence/ always describes the registered target
+_ALT = os.environ.get("VERIF_REPO", "/repo") != "/repo"
+OUT = os.environ.get("VERIF_OUT", os.path.join(ROOT, "out", "alt") if _ALT else os.path.join(ROOT, "out"))
+EVID = os.environ.get("VERIF_EVIDENCE", os.path.join(ROOT, "out", "alt", "evidence") if _ALT else os.path.join(ROOT, "evidence"))
 GUARD_CFG = "vls_verif"
 NCPU = os.cpu_count() or 4
 COQC_TIMEOUT = int(os.environ.get("VERIF_COQC_TIMEOUT", "1200"))
